@@ -102,18 +102,20 @@ Theorem C09_layout_render : forall (ctx : rctx) (cells : list ccell) (wraps : bo
 Proof. exact layout_render. Qed.
 
 (* (3b) The same for Text::layout + Text::render as views: the size reported under a constraint whose
-   height does not cut the text, rendered into any canvas view (plain, offset, strided, transposed)
-   that has room for it. *)
+   height does not cut the text, the layout placed at any position (pr, pc) by its parent, rendered
+   into any canvas view (plain, offset, strided, transposed) in which the reported rectangle lies.
+   rect_view sh pr pc h w is that rectangle of the view.  (A rectangle that sticks out of the view is
+   clipped by Layout::apply_to; then only containment is claimed: C10_leaf_confined.) *)
 Theorem C09_text_view : forall (ctx : rctx) (cells : list ccell) (wraps : bool) (minh minw maxh maxw H W : nat)
-    (sh : shape) (w : window) (data : list ccell),
+    (sh : shape) (w : window) (data : list ccell) (pr pc : nat),
   1 <= maxw -> minh <= maxh -> minw <= maxw -> no_cr ctx cells = true ->
   (Z.of_nat (Nat.max H W) <= i64_max)%Z -> Rep H W sh w -> H * W <= length data ->
   let lay := text_layout ctx cells wraps minh minw maxh maxw in
   fst (text_size ctx cells wraps maxw) <= maxh ->
-  0 < fst lay <= sh_height sh -> 0 < snd lay <= sh_width sh ->
-  exists st', text_render ctx sh data (fst lay) (snd lay) cells wraps = Ok st' /\
+  0 < fst lay -> pr + fst lay <= sh_height sh -> 0 < snd lay -> pc + snd lay <= sh_width sh ->
+  exists st', text_render ctx sh data pr pc (fst lay) (snd lay) cells wraps = Ok st' /\
     Frame sh data (w_data st') /\
-    Appear sh (fst lay) (snd lay) (text_places ctx cells wraps maxw) data (w_data st') /\
+    Appear (rect_view sh pr pc (fst lay) (snd lay)) (fst lay) (snd lay) (text_places ctx cells wraps maxw) data (w_data st') /\
     (wraps = true -> map snd (text_places ctx cells wraps maxw) = printables ctx cells) /\
     (wraps = false ->
        map snd (text_places ctx cells wraps maxw) =
@@ -279,3 +281,19 @@ Example C09_layout_render_nonvacuous :
   text_size ex_ctx2 ex_cells false 4 = (3, 4) /\
   map fst (text_places ex_ctx2 ex_cells false 4) = [(0, 0); (0, 1); (0, 2); (1, 0); (1, 3)].
 Proof. vm_compute. repeat split; reflexivity. Qed.
+
+(* the same text laid out under min 0x0 / max 9x4 and rendered at position (1, 2) of a 7 x 8 view of a
+   transposed 10 x 9 canvas *)
+Example C09_text_view_nonvacuous :
+  let ops := [OpT; OpView (Rng 1 8) (Rng 1 9)] in
+  let sh := apply_chain (of_size 10 9) ops in
+  text_layout ex_ctx2 ex_cells true 0 0 9 4 = (4, 4) /\
+  Rep 10 9 sh (win_chain (win_root 10 9) ops) /\ sh_height sh = 7 /\ sh_width sh = 8 /\
+  match text_render ex_ctx2 sh (repeat blank 90) 1 2 4 4 ex_cells true with
+  | Ok st => length (filter (fun k => match k with KChar 32 => false | _ => true end) (kinds (w_data st))) = 8
+  | _ => False
+  end.
+Proof.
+  split; [vm_compute; reflexivity|]. split; [apply rep_chain; [vm_compute; discriminate|reflexivity|apply rep_root]|].
+  vm_compute. repeat split; reflexivity.
+Qed.
